@@ -47,6 +47,7 @@ CLAIMED["C15"] = dict(
 CLAIMED["C02"] = dict(
     text="Gallina model of the materializer build path over exact rationals; theorems: the row-wise Kronecker product yields exactly one column per "
          "choice of one encoded column per factor, named by joining names with ':' and valued by the cell-wise product, first factor fastest, "
+         "with distinct labels the matrix is the concatenation of the terms' columns in formula order; "
          "width = product of widths; scaling and intercept cell-wise; full/reduced dummy encodings. `build` must equal the implementation "
          "(names, exact values, drop set, recorded scoped terms) for pandas/numpy/sparse; each column is also recomputed from its label.",
     note="Coq kernel + vm_compute; pandas level discovery and float arithmetic on dyadic test values modelled; Python-expression factors outside the model",
